@@ -339,3 +339,32 @@ def explore_backbone(ctx: common.Ctx, kind: str, n_jobs: int, opts: dict, procs:
             done[i]['S_mixed'] = to_set(o) | done[i]['S']
     shutil.rmtree(gen_ref.WORK, ignore_errors=True)
     return res
+
+
+def fusion_pairs(ctx: common.Ctx, n_jobs: int, procs: int = 14):
+    """two fusions from one donor breakpoint (see cv_backbone.fusion_pair_worker): violations
+    are added here; returns the number of evaluated cases"""
+    from . import cv_backbone
+    jobs = [(ctx.rng('fpair', i).randrange(1 << 30), ctx.tier, {}) for i in range(n_jobs)]
+    with mp.get_context('fork').Pool(min(procs, max(1, n_jobs))) as pool:
+        res = pool.map(cv_backbone.fusion_pair_worker, jobs)
+    n = 0
+    for r in res:
+        if 'runs' not in r:
+            continue
+        n += 1
+        a, b, c = (set(r['runs'][k]['real']) for k in ('first', 'second', 'both'))
+        ctx.evaluated('fusion-same-breakpoint', str(r['seed']), bool(a | b), r['desc'])
+        bad = [k for k in ('first', 'second', 'both') if r['runs'][k]['status'] != 'ok']
+        if bad:
+            ctx.add_violation(f'callVariant crashed ({r["runs"][bad[0]]["status"]}) on an input with '
+                              'two fusions from one donor breakpoint', dict(r['desc'], kind='crash'))
+            continue
+        lost = (a | b) - c
+        if lost:
+            ctx.add_violation(
+                f'{len(lost)} peptide(s) reported for a fusion record alone are missing when a second '
+                f'fusion record with the same donor breakpoint (another acceptor) is supplied as well, '
+                f'e.g. {sorted(lost)[:3]}', dict(r['desc'], kind='fusion-same-breakpoint', lost=sorted(lost)[:20]))
+    shutil.rmtree(gen_ref.WORK, ignore_errors=True)
+    return n
